@@ -13,6 +13,7 @@ from typing import List, Optional
 from hypothesis import strategies as st
 
 from . import proto as P
+from .common import HarnessError
 from .world import World
 
 OPEN, CONNECT, SUB, PUB, READY, SETNAME, DISCONNECT, CLOSE, STEP, FAULT, BURST, HFRAME, HCTRL, HGARBAGE, HCLOSE, HMASS, PROBE = range(17)
@@ -435,8 +436,12 @@ def probe(w: World):
     w.drain()
     w.apply({"op": "pub", "c": a + 1, "type": 4321, "dm": 0, "dh": 0, "size": 8, "src": 96})
     w.drain()
-    if w.pubs[w.seq]["recipients"] != [a]:
+    if a not in w.pubs[w.seq]["recipients"]:
         raise HarnessError("probe: model did not expect the delivery")
+    if w.seq not in w.received_log.get(a, []):
+        # observed directly, whatever oracles are switched on
+        w.viol("probe/not-delivered", f"a fresh pair of modules connected and subscribed, but the published probe message did not reach "
+               f"the subscriber (conn {a})")
     w.apply({"op": "disconnect", "c": a})
     w.apply({"op": "disconnect", "c": a + 1})
     w.drain()
